@@ -120,6 +120,26 @@ def run(ctx):
         names = (callee,) if isinstance(callee, str) else callee
         sites = [c for c in b.calls() if c.name in names and c.args and any(x[0] == "arg" and x[1] == 1 for x in pr.operand(c.args[0]))
                  and (len(c.args) < 2 or kname == "histogram::Histogram" or any(x[0] == "arg" and x[1] == 2 for x in pr.operand(c.args[1])))]
+        if not sites:
+            # the same operation one step away: inside a closure of this body (`for_each(|x| accum_part.op(x))`) or inside a private helper
+            # of the crate that is handed (a reference into) the accumulator
+            def _from_accum(op_, n_=0):
+                if any(x[0] == "arg" and x[1] == 1 for x in pr.operand(op_)):
+                    return True
+                l_ = op_local(op_)
+                if l_ is None or n_ > 3:
+                    return False
+                for kind_, bb_, idx_, node_ in b.defs().get(l_, []):
+                    if kind_ == "assign" and node_["k"] == "assign" and node_["rv"]["k"] == "agg" and any(_from_accum(o_, n_ + 1) for o_ in node_["rv"]["ops"]):
+                        return True
+                return False
+            for cb_ in F.closures_of(b):
+                sites += [c for c in cb_.calls() if c.name in names]
+            for c in b.calls():
+                if any(_from_accum(a) for a in c.args):
+                    for hb in local_callee_bodies(F, c):
+                        if hb.crate == AG:
+                            sites += [x for x in hb.calls() if x.name in names]
         others = [c for c in b.calls() if c.name in ("sub_assign", "mul_assign", "clone_from", "clear", "take", "replace") and c.args and
                   any(x[0] == "arg" and x[1] == 1 for x in pr.operand(c.args[0]))]
         plain_store = [i for i in b.live_blocks() for s_ in b.stmts(i) if s_["k"] == "assign" and s_["lhs"]["l"] == 1 and [e[0] for e in s_["lhs"].get("p", [])] == ["deref"]]
@@ -147,14 +167,29 @@ def run(ctx):
             ctx.check(any(x[0] == "arg" and x[1] == 1 and x[2] for x in ro), "R10.2", key + "#drains-own-storage", loc(b, c.bb), "drain is not applied to the aggregator's own storage")
         nx = [c for c in b.calls() if c.is_trait_method("Iterator", "next") and c.bb in b.reachable_after(c.bb)]
         aps = [c for c in b.calls() if c.is_trait_method("EntrySink", "append")]
-        fe = [c for c in b.calls() if c.name in ("for_each", "try_for_each") and any(("call", d.bb) in pr.operand(c.args[0]) or ("via", d.bb) in pr.operand(c.args[0]) for d in dr)]
+        def _chain(c):
+            """closures applied once per drained item when the iterator consumed by `c` is the drain itself or the drain behind
+            one-to-one lazy adapters (`map`, `inspect`); None when it is something else (or an adapter that can drop items)"""
+            cls, cur = [], c
+            for _ in range(6):
+                o = pr.operand(cur.args[0]) if cur.args else set()
+                if any(("call", d.bb) in o or ("via", d.bb) in o for d in dr):
+                    return cls
+                prev = [CallSite(b, x[1], b.term(x[1])) for x in o if x[0] == "call"]
+                if len(prev) != 1 or prev[0].name not in ("map", "inspect") or not prev[0].is_trait_method("Iterator", prev[0].name):
+                    return None
+                cls = closure_args(F, prev[0]) + cls
+                cur = prev[0]
+            return None
+        fe = [(c, _chain(c)) for c in b.calls() if c.name in ("for_each", "try_for_each")]
+        fe = [(c, ch) for c, ch in fe if ch is not None]
         if not nx and fe:
-            # iterator-adapter form: the closure is invoked once per drained item
+            # iterator-adapter form: the closures are invoked once per drained item
             okf = False
-            for c in fe:
+            for c, ch in fe:
                 for cb in closure_args(F, c):
                     caps = [x for x in cb.calls() if x.is_trait_method("EntrySink", "append")]
-                    cl = [x for x in cb.calls() if x.name == "close"]
+                    cl = [x for cc in [cb] + ch for x in cc.calls() if x.name == "close"]
                     ok1, why1 = exactly_once(cb, [x.bb for x in caps])
                     okf = okf or (ok1 and len(cl) >= 2)
             ctx.check(okf, "R10.2", key + "#per-item-append", loc(b), "the per-item closure of the drain does not append exactly one result built from the closed key and aggregate")
